@@ -59,7 +59,7 @@ fn u64_classes() -> impl Strategy<Value = u64> {
 
 /// near-valid traceparents: a canonical string with generated mutations
 fn near_valid() -> impl Strategy<Value = (String, u32)> {
-    (u128_classes(), u64_classes(), any::<u8>(), proptest::collection::vec((0u8..22, any::<u16>(), any::<u8>()), 0..3)).prop_map(|(t, s, f, muts)| {
+    (u128_classes(), u64_classes(), any::<u8>(), proptest::collection::vec((0u8..24, any::<u16>(), any::<u8>()), 0..3)).prop_map(|(t, s, f, muts)| {
         let mut fields: Vec<String> = vec!["00".into(), format!("{:032x}", t), format!("{:016x}", s), format!("{:02x}", f)];
         let mut sep = vec!["-".to_string(); 3];
         let n = muts.len() as u32;
@@ -88,7 +88,16 @@ fn near_valid() -> impl Strategy<Value = (String, u32)> {
                 18 => fields[fi] = fields[fi].trim_start_matches('0').to_string(), // stripped zeros
                 19 => fields[fi] = "٠١٢٣٤٥٦٧٨٩".chars().take(fields[fi].len().min(10)).collect(),
                 20 => { let l = fields.len() - 1; fields[l] = format!("{:x}", b % 16); } // one-digit flags
-                _ => fields[fi] = format!("{}\n", fields[fi]),
+                21 => fields[fi] = format!("{}\n", fields[fi]),
+                _ => {
+                    // replace one character of the field by an arbitrary ASCII byte (0..=127)
+                    let mut cs: Vec<char> = fields[fi].chars().collect();
+                    if !cs.is_empty() {
+                        let p = (a as usize / 4) % cs.len();
+                        cs[p] = (b % 128) as char;
+                        fields[fi] = cs.into_iter().collect();
+                    }
+                }
             }
         }
         let mut out = String::new();
@@ -199,7 +208,7 @@ fn worker(args: &[String]) -> i32 {
     let rule = if variant == "ctx" {
         "contexts (u128,u64,bool) uniform plus boundary classes (0, 1, MAX, top bit, single-bit, low-ones); oracle: encode form, decode(encode(c))==c, independent reading of the encoded fields, TraceId/SpanId Display/FromStr/serde round trips; non-trivial = a component in a boundary class; distinct = hash of the case"
     } else {
-        "strings: canonical traceparents with 0-2 generated mutations (22 kinds: version, field count, empty/long/short/overflow fields, case, signs, whitespace, non-ASCII digits, NUL, separators, leading zeros) plus arbitrary Unicode; oracle: differential against an independent reference parser of the property's sentence, no panic; non-trivial = exactly one mutation away from canonical, or four dash-separated fields over the hex/sign alphabet; distinct = hash of the case"
+        "strings: canonical traceparents with 0-2 generated mutations (23 kinds incl. any ASCII byte at any position: version, field count, empty/long/short/overflow fields, case, signs, whitespace, non-ASCII digits, NUL, separators, leading zeros) plus arbitrary Unicode; oracle: differential against an independent reference parser of the property's sentence, no panic; non-trivial = exactly one mutation away from canonical, or four dash-separated fields over the hex/sign alphabet; distinct = hash of the case"
     };
     let out_json = json!({
         "property": "C12", "variant": variant, "cancelable": false, "seed": seed, "worker": wid,
